@@ -1,0 +1,9 @@
+//go:build verif
+
+package shard
+
+// VerifRemoveGarbage runs one pass of the garbage remover synchronously
+// (verification harness only).
+func (s *Shard) VerifRemoveGarbage() {
+	s.removeGarbage()
+}
